@@ -21,6 +21,7 @@ namespace parmcb {
             double limit;
             bool found;
             double weight;                   // weight reported by the search (before the signed edge is added)
+            bool empty_signed_set = false;   // the search ran with an EMPTY signed edge set (single-edge shortcut)
         };
 
         inline std::function<void(const SearchEvent&)>& search_hook() {
@@ -30,7 +31,8 @@ namespace parmcb {
 
         template<class EdgeSet, class ForestIndex>
         void report_search(std::size_t phase, bool hidden_branch, std::size_t source, const EdgeSet &hidden,
-                const ForestIndex &forest_index, bool use_limit, double limit, bool found, double weight) {
+                const ForestIndex &forest_index, bool use_limit, double limit, bool found, double weight,
+                bool empty_signed_set = false) {
             if (!search_hook()) {
                 return;
             }
@@ -45,6 +47,7 @@ namespace parmcb {
             ev.limit = limit;
             ev.found = found;
             ev.weight = weight;
+            ev.empty_signed_set = empty_signed_set;
             search_hook()(ev);
         }
 
